@@ -40,6 +40,11 @@ type noiseCase struct {
 	// "offcurve"): if the responder's view of the remote ephemeral ever
 	// falls back to something the attacker can compute, the act-one MAC
 	// verifies and the responder answers
+	// EntLen: length of the passphrase entropy in bytes (0 = the 14 bytes of
+	// a pairing phrase; callers may use longer secrets, e.g. 32-byte
+	// hashes); -1: the responder's entropy is the initiator's 13 bytes plus
+	// one trailing zero byte
+	EntLen    int    `json:"entLen,omitempty"`
 	Forge     string `json:"forge,omitempty"`
 	EphScalar int    `json:"ephScalar,omitempty"`
 }
@@ -102,14 +107,32 @@ func runNoiseCase(c noiseCase, salt int64) map[string]any {
 	r := rng(salt)
 	p := defaultHs()
 	p.cMin, p.cMax, p.sMin, p.sMax = byte(c.CMin), byte(c.CMax), byte(c.SMin), byte(c.SMax)
-	p.auth = payloadOf(c.Payload)
+	// the responder's auth data lives in a slice with spare capacity (as one
+	// built by append or read from a buffer has); authCopy is what it holds
+	// before the handshake
+	authCopy := payloadOf(c.Payload)
+	p.auth = append(make([]byte, 0, len(authCopy)+64), authCopy...)
 	p.cliStale = []byte("auth data of an earlier connection of this session")
 	other := newPriv()
-	if !c.PwEq {
+	if c.EntLen > 14 {
+		ext := make([]byte, c.EntLen)
+		copy(ext, p.cliEnt)
+		for i := 14; i < c.EntLen; i++ {
+			ext[i] = byte(37*i + 11)
+		}
+		p.cliEnt, p.srvEnt = ext, append([]byte(nil), ext...)
+	}
+	if c.EntLen == -1 {
+		p.cliEnt = append([]byte(nil), p.cliEnt[:13]...)
+		p.srvEnt = append(append([]byte(nil), p.cliEnt...), 0)
+	} else if !c.PwEq {
 		p.srvEnt = append([]byte(nil), p.cliEnt...)
 		bit := c.PwBit
 		if bit < 0 {
 			bit = r.Intn(110)
+		}
+		if c.EntLen > 14 && c.PwBit < 0 {
+			bit = 112 + r.Intn(8*(c.EntLen-14))
 		}
 		p.srvEnt[bit/8] ^= 1 << uint(7-bit%8)
 	}
@@ -216,7 +239,10 @@ func runNoiseCase(c noiseCase, salt int64) map[string]any {
 	o["iRsOK"] = b2i(iDone && cs.RemoteStatic != nil && cs.RemoteStatic.IsEqual(p.srvKey.PubKey()))
 	o["rRsOK"] = b2i(rDone && ss.RemoteStatic != nil && ss.RemoteStatic.IsEqual(p.cliKey.PubKey()))
 	got := res.cd.AuthData()
-	o["payloadOK"] = b2i(iDone && bytes.Equal(got, p.auth))
+	// the initiator holds exactly what the responder was configured with,
+	// and the responder still holds it too
+	o["payloadOK"] = b2i(iDone && bytes.Equal(got, authCopy) &&
+		(!rDone || bytes.Equal(res.sd.AuthData(), authCopy)))
 	// what was published to the connection data (it held the auth data of
 	// an earlier connection before)
 	o["iAuthLen"] = len(got)
@@ -325,6 +351,24 @@ func TestNoiseCases(t *testing.T) {
 			}
 		}
 	}
+	// secrets longer than a pairing phrase's 14 bytes that differ only beyond
+	// them, or only by a trailing zero byte (every tier, in full)
+	for _, el := range []int{15, 16, 32} {
+		for _, bit := range []int{112, 119, 8*el - 1, -1} {
+			if bit >= 8*el {
+				continue
+			}
+			add(noiseCase{Pattern: "XX", CMin: 0, CMax: 2, SMin: 0, SMax: 2, PwEq: false,
+				IExpect: "none", RExpect: "none", Payload: "small",
+				VerSub: [3]int{-1, -1, -1}, CorruptField: 1, Bit: -1, PwBit: bit, EntLen: el})
+		}
+		add(noiseCase{Pattern: "XX", CMin: 0, CMax: 2, SMin: 0, SMax: 2, PwEq: true,
+			IExpect: "none", RExpect: "none", Payload: "small",
+			VerSub: [3]int{-1, -1, -1}, CorruptField: 1, Bit: -1, PwBit: -1, EntLen: el})
+	}
+	add(noiseCase{Pattern: "XX", CMin: 0, CMax: 2, SMin: 0, SMax: 2, PwEq: false,
+		IExpect: "none", RExpect: "none", Payload: "small",
+		VerSub: [3]int{-1, -1, -1}, CorruptField: 1, Bit: -1, PwBit: -1, EntLen: -1})
 	// an initiator without the passphrase that forges act one around an
 	// ephemeral of its own choosing (every tier, in full)
 	for _, fg := range []string{"unmasked", "zero", "prefix5", "offcurve"} {
